@@ -875,7 +875,8 @@ def kindAddrPort : Nat := 100
 def kindHttpMethod : Nat := 101
 
 inductive Leaf where
-  | scalar (canon : List Char)
+  /-- `k` = the scalar Go type (oracle id), `canon` = canonical print of the decoded value -/
+  | scalar (k : Nat) (canon : List Char)
   | strs (vs : List (List Char))
   | istr (s : List Char)
   | ifns (fs : List Fn)
@@ -921,7 +922,7 @@ def applyDefaults (dec : Dec) (path : List Char) : List Field → Store → Exce
       | .iface => applyDefaults dec path fs (st.put (sub path f.key) (.istr d))
       | .scalar k =>
         match dec k d with
-        | some c => applyDefaults dec path fs (st.put (sub path f.key) (.scalar c))
+        | some c => applyDefaults dec path fs (st.put (sub path f.key) (.scalar k c))
         | none => .error .defaultDecode
       | .strList => applyDefaults dec path fs (st.put (sub path f.key) (.strs (splitOnC ',' d)))
       | _ => .error .defaultDecode
@@ -984,7 +985,7 @@ def paramItems (S : Schema) (dec : Dec) : Nat → StructDef → List Char → Li
             paramItems S dec n sd path rest (st.put p (.strs (old ++ splitOnC ',' val))) (key :: set)
           | .scalar k =>
             match dec k val with
-            | some c => paramItems S dec n sd path rest (st.put p (.scalar c)) (key :: set)
+            | some c => paramItems S dec n sd path rest (st.put p (.scalar k c)) (key :: set)
             | none => .error .convert
           | _ => .error .convert
     | .fns key fs ann =>
@@ -1033,7 +1034,7 @@ def structListItems (S : Schema) (dec : Dec) : Nat → Nat → List Char → Lis
     | .sec name items =>
       let i := getCount st path
       let ep := path ++ '[' :: (natStr i ++ [']'])
-      match paramParser S dec n sid ep items (st.put (sub ep "#name".toList) (.scalar name)) with
+      match paramParser S dec n sid ep items (st.put (sub ep "#name".toList) (.scalar 0 name)) with
       | .error e => .error e
       | .ok st' => structListItems S dec n sid path rest (st'.put path (.count (i + 1)))
     | _ => .error .unmatchedType
@@ -1060,15 +1061,15 @@ def mustPatchFn (f : Fn) : Fn :=
 /-- the four patches of `config/patch.go` -/
 def applyPatches (dec : Dec) (st : Store) : Except CErr Store :=
   -- patchBootstrapResolver
-  let br := match st.get? "global.bootstrap_resolver".toList with | some (.scalar v) => v | _ => []
+  let br := match st.get? "global.bootstrap_resolver".toList with | some (.scalar _ v) => v | _ => []
   match dec kindAddrPort br with
   | none => .error .patch
   | some _ =>
     -- patchTcpCheckHttpMethod
-    let m := match st.get? "global.tcp_check_http_method".toList with | some (.scalar v) => v | _ => []
+    let m := match st.get? "global.tcp_check_http_method".toList with | some (.scalar _ v) => v | _ => []
     let st := match dec kindHttpMethod m with
       | some _ => st
-      | none => st.put "global.tcp_check_http_method".toList (.scalar "CONNECT".toList)
+      | none => st.put "global.tcp_check_http_method".toList (.scalar 0 "CONNECT".toList)
     -- patchEmptyDns
     let st := match st.get? "dns.routing.request.fallback".toList with
       | none => st.put "dns.routing.request.fallback".toList (.istr "asis".toList)
@@ -1104,7 +1105,7 @@ def decodeSpecs (S : Schema) (dec : Dec) (fuel : Nat) (ss : List ASection) : Lis
       | .ok st' =>
         let st' := if sp.name = "global".toList then
             st'.put "global.so_mark_from_dae_set".toList
-              (.scalar (if sectionHasParam sec.items "so_mark_from_dae".toList then "true".toList else "false".toList))
+              (.scalar 1 (if sectionHasParam sec.items "so_mark_from_dae".toList then "true".toList else "false".toList))
           else st'
         decodeSpecs S dec fuel ss rest st'
 
